@@ -159,7 +159,7 @@ def run_rules(ctx, res):
                 if b is not None and b[0] == "let" and b[1] is not None:
                     txt = unparse(b[1]).replace(" ", "")
                     m1 = re.match(r"^&(\w+)\.type_$", txt)
-                    m2 = re.match(r"^self\.file\.terminal_enum\.get_type\(&(\w+)\.name\)\.unwrap\(\)$", txt)
+                    m2 = re.match(r"^self\.file\.terminal_enum\.get_type\(&(\w+)\.name\)(?:\.unwrap\(\)|\?)$", txt)
                     if m1:
                         is_type = True
                         n_sites += 1
